@@ -82,11 +82,33 @@ Definition flip_grpc (o : outcome) : outcome :=
   match o with OProxy g bs fs t => OProxy (negb g) bs fs t | _ => o end.
 
 (* what is forwarded: the path (and Host header) the upstream receives, the path of a redirect's Location *)
+Definition pair_set_eqb (a b : list (string * string)) : bool :=
+  let mem x l := existsb (fun y => seqb (lower (fst x)) (lower (fst y)) && seqb (snd x) (snd y)) l in
+  forallb (fun x => mem x b) a && forallb (fun x => mem x a) b.
+Definition name_set_eqb (a b : list string) : bool :=
+  let mem x l := existsb (fun y => seqb (lower x) (lower y)) l in
+  forallb (fun x => mem x b) a && forallb (fun x => mem x a) b.
+
+(* header modifiers of the answering rule against the directives of the answering location *)
+Definition headers_agree (cs : cluster) (conf : list dir) (tbl : matchtable) (q : request) : bool :=
+  match decide_cand cs q, answering_location conf tbl q with
+  | Some c, Some (loc, _) =>
+      forallb (fun e => match upstream_header conf q loc (fst e) with
+                        | inl (inr v) => opt_str_eqb v (snd e)
+                        | _ => false
+                        end) (expected_req_headers q (cd_rule c)) &&
+      (let '(adds, hides) := expected_resp_headers (cd_rule c) in
+       let '(adds', hides') := response_headers loc in
+       pair_set_eqb adds adds' && name_set_eqb hides hides')
+  | _, _ => true
+  end.
+
 Definition forward_agree (cs : cluster) (conf : list dir) (tbl : matchtable) (q : request) : bool :=
   match expected_forward cs q, forwarded conf tbl q with
   | SNone, _ => true
   | SProxy p h, FwdProxy p' h' =>
-      seqb p p' && match h with None => seqb h' "$gw_api_compliant_host" | Some x => seqb h' x end
+      seqb p p' && match h with None => seqb h' "$gw_api_compliant_host" | Some x => seqb h' x end &&
+      headers_agree cs conf tbl q
   | SRedirect p, FwdRedirect p' => seqb p p'
   | _, FwdUnknown _ => false
   | _, _ => true        (* the kind of answer is the outcome comparison's matter *)
